@@ -4,14 +4,14 @@ from hypothesis import strategies as st
 from eglib import graphs
 
 
-def cases(classes=6, max_v=6, max_e=10):
+def cases(classes=7, max_v=6, max_e=10):
     def mk(g, memb, opt, extra):
         nv = g["nv"]
         return {"g": g, "uni": list(dict.fromkeys(x % nv for x in memb)), "opt": opt, "extra": extra}
 
     return st.builds(
         mk,
-        st.one_of(graphs.graph_descs(max_v, max_e, classes, max_reassign=2), graphs.graph_descs(max_v, max_e, classes, min_v=3, min_e=3, max_reassign=2)),
+        st.one_of(graphs.graph_descs(max_v, max_e, classes, max_reassign=2, wide=True), graphs.graph_descs(max_v, max_e, classes, min_v=3, min_e=3, max_reassign=2, wide=True)),
         st.lists(st.integers(0, max_v - 1), max_size=max_v),
         st.integers(0, 63),
         st.integers(0, 7),
